@@ -307,7 +307,7 @@ package chain
 //@ func (*Manager).checkTxnSet props C14
 //@   assigns heap:consensus.MidState
 //@   frame assumed
-//@   requires m != nil && m.store != nil && m.txpool.indices != nil
+//@   requires m != nil
 //@   loop "range txns"
 //@     invariant [all-so-far] m == old(m) && m.txpool.indices == old(m.txpool.indices) && snapshot(m.txpool.indices) == old(snapshot(m.txpool.indices)) && (allInPool <==> (forall k int :: { txns[k] } 0 <= k && k <= rangeindex ==> (txns[k].ID() in m.txpool.indices)))
 //@   loop "range v2txns"
